@@ -564,7 +564,7 @@ def check_truncated(run, c, t, s, line, o):
     if degenerate(t["x"]):
         # the component-less SEQUENCE { ... } is not extensible for asn1c: it cannot read a newer version
         if s == "uper" or not o.startswith("OK %d " % nb):
-            run.known_finding(FID["empty_c01"], line[:200])
+            run.known_finding(FID["empty_c01"].replace("C01", run.prop), line[:200])
             return
     unknown_alt = t["tv"] is None          # CHOICE value of an alternative the older version does not have
     want = None if unknown_alt else "OK %d %s" % (nb, t.get("xder", "?"))
@@ -596,9 +596,9 @@ def check_truncated(run, c, t, s, line, o):
             run.violation("ext:model:truncated(%s)" % s, dict(rp, what="the standard reading of the model does not return the known part (model defect)", standard=m1), no_input=True)
         return
     if s == "uper" and m0 != m1:
-        run.known_finding(FID["uskip"], line[:200])
+        run.known_finding(FID["uskip"].replace("C01", run.prop), line[:200])
     elif s == "oer" and m0 != m1:
-        run.known_finding(FID["oskip"], line[:200])
+        run.known_finding(FID["oskip"].replace("C01", run.prop), line[:200])
     else:
         run.violation("ext:oracle:truncated(%s)" % s, dict(rp, what="an older version of the type does not get the known part of the value back, or not all octets are consumed",
                                                           expected=want, model=m0, standard=m1))
